@@ -56,6 +56,9 @@ type faultReader struct {
 	failed   bool // mode 2: the one-off failure has been delivered
 	returned bool // the call under test has returned
 	late     int  // bytes delivered after that
+	blockAt  int           // >=0: after blockAt bytes the next Read blocks until release is closed (a pipe whose writer is idle)
+	release  chan struct{} // closed by the harness once the call under test has returned
+	blocked  atomic.Bool   // a Read is (or was) parked
 }
 
 func (r *faultReader) Read(p []byte) (int, error) {
@@ -63,11 +66,25 @@ func (r *faultReader) Read(p []byte) (int, error) {
 		runtime.Gosched()
 	}
 	r.mu.Lock()
+	if r.release != nil && r.blockAt >= 0 && r.pos >= r.blockAt {
+		// nothing more arrives for now: park like a Read on an idle pipe (without holding the lock)
+		r.mu.Unlock()
+		r.blocked.Store(true)
+		<-r.release
+		r.mu.Lock()
+	}
 	defer r.mu.Unlock()
 	if len(p) == 0 {
 		return 0, nil
 	}
 	limit := len(r.doc)
+	if r.release != nil && r.blockAt >= 0 && r.pos < r.blockAt && r.blockAt < limit {
+		select {
+		case <-r.release:
+		default:
+			limit = r.blockAt // deliver up to the point where the input goes quiet
+		}
+	}
 	if r.failAt >= 0 && r.failAt < limit && !(r.mode == 2 && r.failed) {
 		limit = r.failAt
 	}
